@@ -32,12 +32,9 @@ def run(tier, replay):
         if not r.ok:
             raise vlib.Inconclusive("TLC: %s %s" % (r.violated, (r.error or "")[-1500:]))
         log("TLC GrepContext N=%d: %d distinct states, ImplIsRef holds" % (n, r.distinct))
-        badrec = [l for l in r.out.splitlines() if l.startswith('<<"BADRECORDS"')]
-        if not badrec:
-            raise vlib.Inconclusive("no record report from TLC")
         records = vlib.read_ndjson(rec)
-        if "{}" not in badrec[0]:
-            ids = [int(x) for x in badrec[0].split("{")[1].split("}")[0].split(",") if x.strip()]
+        ids = vlib.printed_set(r.out, "BADRECORDS")
+        if ids:
             for rr in records:
                 if rr["id"] in ids:
                     V.violation("random file: delivered lines differ from RefOut (evaluated by TLC)",
